@@ -4,6 +4,7 @@
    onnx_ir.serde implementation itself is measured by the harness (byte equality, inclusion checker below), not proved. *)
 From Coq Require Import ZArith List Bool String.
 Require Import OV.Serde.Wrappers OV.Serde.WrappersProofs OV.Gen.C15Wrappers.
+Require Import OV.Serde.Forward OV.Serde.ForwardProofs.
 Require Import OV.Serde.Tree OV.Serde.TreeProofs OV.Serde.Packing OV.Serde.PackingProofs.
 Import ListNotations.
 
@@ -15,6 +16,52 @@ Theorem C15_wrappers_alike : forall (G Fs O R IR : Type) (no_funcs : Fs) (ser : 
                       = ser (iarg_after IR (run_ir IR r f (deser M))).
 Proof. exact src_alike. Qed.
 Print Assumptions C15_wrappers_alike.
+
+(* ---- same pass, same options in both entry forms.  Gen/C15Wrappers.v holds, per wrapper and per branch, the pass calls
+   read from the source (callee, constructor arguments, positional arguments, the full keyword -> expression map,
+   *args / **kwargs).  Every wrapper of the source passes the decision procedure ... *)
+Theorem C15_forwarding_same_in_source : forallb forwarding_ok src_fw_all = true.
+Proof. exact src_forwarding_ok. Qed.
+Print Assumptions C15_forwarding_same_in_source.
+
+(* ... which accepts exactly when the two branches make the same non-empty sequence of calls on the model ... *)
+Theorem C15_forwarding_ok_iff : forall w,
+  forwarding_ok w = true <-> (w_ir w = w_proto w /\ w_proto w <> [] /\ forallb takes_model (w_proto w) = true).
+Proof. exact forwarding_ok_iff. Qed.
+Print Assumptions C15_forwarding_ok_iff.
+
+(* ... so that both branches apply the same IR transformation for every value of every option (env), whatever the callees
+   (sem) and the argument expressions (ex) mean *)
+Theorem C15_forwarding_same_transformation : forall w, In w src_fw_all ->
+  forall (IR V : Type) (env : string -> V) ex (sem : string -> option (eargs V) -> eargs V -> IR -> IR) m,
+    run_calls IR V env ex sem (w_proto w) m = run_calls IR V env ex sem (w_ir w) m.
+Proof. exact src_forwarding_same. Qed.
+Print Assumptions C15_forwarding_same_transformation.
+
+(* proto(f) M = serialize (ir(f) (deserialize M)) with the transformation of each entry form taken from the source
+   (pass calls + forwarded options) instead of assumed to be the same f: optimize, fold_constants, remove_unused_nodes,
+   remove_unused_functions, rewrite, replace_functions *)
+Theorem C15_wrappers_alike_with_options : forall wd, In wd src_fw_total ->
+  forall (G Fs O R IR V : Type) (no_funcs : Fs) (ser : IR -> proto G Fs O R) (deser : proto G Fs O R -> IR)
+         (env : string -> V) ex (sem : string -> option (eargs V) -> eargs V -> IR -> IR) other r M,
+    result_of _ _ _ _ (run_proto G Fs O R no_funcs IR ser deser (snd wd) other (run_calls IR V env ex sem (w_proto (fst wd))) M)
+    = ser (iarg_after IR (run_ir IR r (run_calls IR V env ex sem (w_ir (fst wd))) (deser M))).
+Proof. exact src_alike_with_options. Qed.
+Print Assumptions C15_wrappers_alike_with_options.
+
+(* convert_version, same with its fields-only copy-back (hypothesis decided by computation on the regenerated discipline:
+   true for the source as it is now, see C15_convert_version_current_source) and the two laws of C15_convert_version_* *)
+Theorem C15_convert_version_alike_with_options :
+  copies_enough src_convert_version = true ->
+  forall (G Fs O R IR V : Type) (no_funcs : Fs) (ser : IR -> proto G Fs O R) (deser : proto G Fs O R -> IR)
+         (env : string -> V) ex (sem : string -> option (eargs V) -> eargs V -> IR -> IR) M,
+    N G Fs O R IR ser deser M = M ->
+    (forall m, p_rest _ _ _ _ (ser (run_calls IR V env ex sem (w_proto src_fw_convert_version) m)) = p_rest _ _ _ _ (ser m)) ->
+    result_of _ _ _ _ (run_proto G Fs O R no_funcs IR ser deser src_convert_version false
+                         (run_calls IR V env ex sem (w_proto src_fw_convert_version)) M)
+    = ser (run_calls IR V env ex sem (w_ir src_fw_convert_version) (deser M)).
+Proof. exact src_convert_version_with_options. Qed.
+Print Assumptions C15_convert_version_alike_with_options.
 
 (* optimize / rewrite / replace_functions leave their ModelProto argument unchanged and return a new proto *)
 Theorem C15_functional_variants_pure : forall (G Fs O R IR : Type) (no_funcs : Fs) (ser : IR -> proto G Fs O R) (deser : proto G Fs O R -> IR) w,
@@ -90,6 +137,18 @@ Theorem C15_includes_keys : forall a b, includes a b = true ->
 Proof. exact includes_keys. Qed.
 Print Assumptions C15_includes_keys.
 
+(* the checker is sound AND complete for the tree encoding: on well-keyed trees (no container lists a key twice -- checked
+   by `wkb` on every tree the harness builds) it accepts exactly when, at every path where a has something, b has the
+   same scalar / bytes value, a keyed container, or an ordered list of the same length *)
+Theorem C15_includes_sound_and_complete : forall a b, wkb a = true -> (includes a b = true <-> Included a b).
+Proof. exact includes_iff_Included. Qed.
+Print Assumptions C15_includes_sound_and_complete.
+
+(* soundness needs no side condition *)
+Theorem C15_includes_Included : forall a b, includes a b = true -> Included a b.
+Proof. exact includes_Included. Qed.
+Print Assumptions C15_includes_Included.
+
 (* int4 / uint4 two-per-byte packing: unpack n (pack l) = l for every length incl. odd and 0 *)
 Open Scope Z_scope.
 Theorem C15_pack_unpack_uint4 : forall l, Forall (fun e => 0 <= e < 16) l -> unpack4 (List.length l) (pack4 l) = l.
@@ -119,3 +178,35 @@ Theorem C15_pack_unpack_int2 : forall l, Forall (fun e => -2 <= e <= 1) l ->
   map sext2 (unpack2 (List.length l) (pack2 l)) = l.
 Proof. exact unpack2_pack2_signed. Qed.
 Print Assumptions C15_pack_unpack_int2.
+
+(* FLOAT4E2M1 uses the 4-bit codec on its bit patterns (C15_pack_unpack_uint4).  16-bit element types (BFLOAT16, FLOAT16,
+   INT16, UINT16): little-endian byte pairs, both directions, every length *)
+Theorem C15_bytes16_roundtrip : forall l, Forall (fun e => 0 <= e < 65536) l ->
+  dec16 (enc16 l) = l /\ List.length (enc16 l) = (2 * List.length l)%nat /\ Forall (fun b => 0 <= b < 256) (enc16 l).
+Proof. exact (fun l H => conj (dec16_enc16 l H) (conj (enc16_length l) (enc16_bytes l))). Qed.
+Print Assumptions C15_bytes16_roundtrip.
+
+Theorem C15_bytes16_roundtrip_inverse : forall n bs, List.length bs = (2 * n)%nat -> Forall (fun b => 0 <= b < 256) bs ->
+  enc16 (dec16 bs) = bs.
+Proof. exact enc16_dec16. Qed.
+Print Assumptions C15_bytes16_roundtrip_inverse.
+
+(* 8-bit element types (the five float8 variants, INT8, UINT8, BOOL): the payload is the bit patterns *)
+Theorem C15_bytes8_roundtrip : forall l, Forall (fun e => 0 <= e < 256) l -> dec8 (enc8 l) = l.
+Proof. exact dec8_enc8. Qed.
+Print Assumptions C15_bytes8_roundtrip.
+
+(* the int32_data carrier of TensorProto: bit patterns come back unchanged (16-bit, 8-bit, packed 4-bit) *)
+Theorem C15_int32_carrier16 : forall l, Forall (fun e => 0 <= e < 65536) l ->
+  int32_to_bytes16 l = enc16 l /\ int32_to_elems16 l = l /\ dec16 (int32_to_bytes16 l) = l.
+Proof. exact int32_carrier16. Qed.
+Print Assumptions C15_int32_carrier16.
+
+Theorem C15_int32_carrier8 : forall l, Forall (fun e => 0 <= e < 256) l -> int32_to_bytes8 l = l /\ int32_to_elems8 l = l.
+Proof. exact int32_carrier8. Qed.
+Print Assumptions C15_int32_carrier8.
+
+Theorem C15_int32_carrier_packed4 : forall l, Forall (fun e => 0 <= e < 16) l ->
+  unpack4 (List.length l) (int32_to_bytes8 (pack4 l)) = l.
+Proof. exact int32_carrier_packed4. Qed.
+Print Assumptions C15_int32_carrier_packed4.
